@@ -102,6 +102,16 @@ SHAPES = [
     # --- TLS binary containers
     (T + 'subprotocol:TlsHandshakeClientHello', 'many-cipher-suites', lambda n: _hello(suites=b'\x00\x2f' * _clamp(n, 32000))),
     (T + 'subprotocol:TlsHandshakeClientHello', 'many-unknown-suites', lambda n: _hello(suites=b'\x7a\x7a' * _clamp(n, 32000))),
+    # the signalling suites are taken out of the list by the parser: many of them, behind, before and between many
+    # ordinary suites (removal from a list is where quadratic scans hide)
+    (T + 'subprotocol:TlsHandshakeClientHello', 'suites-then-many-scsv',
+     lambda n: _hello(suites=b'\x00\x2f' * _clamp(n // 2, 16000) + b'\x00\xff' * _clamp(n // 2, 16000))),
+    (T + 'subprotocol:TlsHandshakeClientHello', 'suites-then-both-scsv',
+     lambda n: _hello(suites=b'\xc0\x2f' * _clamp(n // 2, 16000) + b'\x56\x00\x00\xff' * _clamp(n // 4, 8000))),
+    (T + 'subprotocol:TlsHandshakeClientHello', 'many-scsv-then-suites',
+     lambda n: _hello(suites=b'\x56\x00' * _clamp(n // 2, 16000) + b'\x00\x2f' * _clamp(n // 2, 16000))),
+    (T + 'subprotocol:TlsHandshakeClientHello', 'scsv-interleaved',
+     lambda n: _hello(suites=b'\x00\x2f\x00\xff\x13\x01\x56\x00' * _clamp(n // 4, 8000))),
     (T + 'subprotocol:TlsHandshakeClientHello', 'many-unknown-extensions',
      lambda n: _hello(extensions=b''.join(_ext(0xff00 + (i % 200), b'') for i in range(_clamp(n, 16000))))),
     (T + 'subprotocol:TlsHandshakeClientHello', 'one-huge-extension', lambda n: _hello(extensions=_ext(0xff55, b'\x00' * _clamp(n * 4, 65000)))),
